@@ -14,7 +14,7 @@ CLAIMED = {
         design="5/C08"),
     "C14": dict(
         technique="TLA+ abstract spec StopAbs (handle algebra + request_stop/callback protocol) and fine-grained StopStateImpl (lock word load/CAS/spin, callback list, is_removed hand-shake) model-checked by TLC + TLC trace validation of sequential and concurrent histories from the real stop_source/stop_token/stop_callback",
-        text="TLC proves one-winner, callback-at-most-once, no-run-after-destructor, destructor-waits, source-count bookkeeping and registered-callback-runs (fair) on the abstract spec, shows each named deviation violates them, and proves the same on StopStateImpl for every interleaving of 2 (thorough: 3) requesters, registrations and destructors with four variants that re-create the repaired defects and a seeded change; recorded histories of the real objects (handle copy/move/assign/swap sequences; concurrent request_stop / callback construction / destruction incl. from inside callbacks, on pika tasks and OS threads, with delays injected at the st.* hooks between load and CAS) must be behaviours of the spec; a chase scenario lets a destroyer follow request_stop through 12 callbacks",
+        text="TLC proves one-winner, callback-at-most-once, no-run-after-destructor, destructor-waits, source-count bookkeeping and registered-callback-runs (fair) on the abstract spec, shows each named deviation violates them, and proves the same on StopStateImpl for every interleaving of 2 (thorough: 3) requesters, registrations and destructors with four variants that re-create the repaired defects and a seeded change; recorded histories of the real objects (handle copy/move/assign/swap sequences; concurrent request_stop / callback construction / destruction incl. from inside callbacks, on pika tasks and OS threads, with delays injected at the st.* hooks between load and CAS) must be behaviours of the spec; a chase scenario lets a destroyer follow request_stop through 12 callbacks; the hook at the dequeue point inside request_stop reports whether the entry is already marked as removed (required by StopStateImpl while the lock is held) and an unmarked dequeue rejects the history",
         note="sequential consistency; sampled schedules widened by hook delays, not exhaustive; handle objects themselves are used from one thread at a time (documented precondition)",
         design="5/C14"),
     "C17": dict(
